@@ -489,6 +489,92 @@ Proof. apply (tloop_project p max_file_passes [fst x] x). Qed.
 
 End DriverProofs.
 
+(* ---- the wrapper main.format_code around _format_code (final line break handling) ---- *)
+Section Outer.
+Variable St : Type.
+Variable eqb : St -> St -> bool.
+Variable Pres : Type.
+Variable skip_file is_blank valid : St -> bool.
+Variable indent_level : St -> nat.
+Variable surface : Pres -> St -> Pres.
+Variable app : stage -> Pres -> St -> St.
+Variable minws : St -> St -> St.
+Variable is_empty terminated : St -> bool.
+Variable add_nl : St -> St.
+Variable ends_lf : St -> bool.
+Variable drop_last : St -> St.
+Variable n_multi max_file_passes : nat.
+
+Notation inner := (format_code_model St eqb Pres skip_file is_blank valid indent_level surface app
+                                     minws n_multi max_file_passes).
+Notation inner_run := (format_code_run St eqb Pres skip_file is_blank valid indent_level surface app
+                                       minws n_multi max_file_passes).
+Notation outer := (format_code_outer St eqb Pres skip_file is_blank valid indent_level surface app
+                                     minws is_empty terminated add_nl ends_lf drop_last
+                                     n_multi max_file_passes).
+Notation outer_run := (format_code_outer_run St eqb Pres skip_file is_blank valid indent_level surface
+                                             app minws is_empty terminated add_nl ends_lf drop_last
+                                             n_multi max_file_passes).
+
+(* pipeline invariant for the public entry point: additionally the two line-break operations of
+   the wrapper must respect R *)
+Theorem pipeline_invariant_outer (R : St -> St -> Prop) :
+  (forall s, R s s) -> (forall a b c, R a b -> R b c -> R a c) ->
+  (forall st p s, R s (app st p s)) -> (forall o s, R s (minws o s)) ->
+  (forall s, R s (add_nl s)) -> (forall s, R s (drop_last s)) ->
+  forall safe keep p0 s, R s (outer safe keep p0 s).
+Proof.
+  intros Rr Rt Hs Hm Ha Hd safe keep p0 s.
+  pose proof (pipeline_invariant St eqb Pres skip_file is_blank valid indent_level surface app minws
+                n_multi max_file_passes R Rr Rt Hs Hm) as PI.
+  unfold format_code_outer, format_code_outer_run.
+  destruct (needs_nl St is_empty terminated s).
+  - cbv zeta. simpl fst.
+    assert (H1 : R s (inner safe keep p0 (add_nl s))) by (eapply Rt; [apply Ha|apply PI]).
+    unfold format_code_model in H1.
+    destruct (ends_lf (fst (inner_run safe keep p0 (add_nl s)))); [|exact H1].
+    eapply Rt; [exact H1|apply Hd].
+  - apply PI.
+Qed.
+
+(* a terminated (or empty) source goes straight to _format_code *)
+Theorem outer_terminated_is_inner safe keep p0 s :
+  is_empty s = true \/ terminated s = true -> outer_run safe keep p0 s = inner_run safe keep p0 s.
+Proof.
+  intros H. unfold format_code_outer_run, needs_nl.
+  destruct H as [H|H]; rewrite H; simpl; [reflexivity|]. rewrite andb_false_r. reflexivity.
+Qed.
+
+(* the wrapper applies no stage of its own: same bound on the number of stage applications *)
+Theorem format_code_outer_bounded safe keep p0 s :
+  length (snd (outer_run safe keep p0 s)) <= 2 * max_file_passes * n_multi + 16.
+Proof.
+  unfold format_code_outer_run.
+  destruct (needs_nl St is_empty terminated s); cbv zeta; simpl snd.
+  - pose proof (format_code_bounded St eqb Pres skip_file is_blank valid indent_level surface app minws
+                  n_multi max_file_passes safe keep p0 (add_nl s)) as B.
+    unfold format_code_trace in B. rewrite rev_length in B. exact B.
+  - pose proof (format_code_bounded St eqb Pres skip_file is_blank valid indent_level surface app minws
+                  n_multi max_file_passes safe keep p0 s) as B.
+    unfold format_code_trace in B. rewrite rev_length in B. exact B.
+Qed.
+
+(* skip_file sources come back verbatim through the wrapper as well, given that appending "\n"
+   keeps the marker and that dropping the last character undoes the appending *)
+Theorem outer_skip_file_untouched safe keep p0 s :
+  skip_file s = true ->
+  (skip_file (add_nl s) = true /\ ends_lf (add_nl s) = true /\ drop_last (add_nl s) = s) ->
+  outer safe keep p0 s = s /\ snd (outer_run safe keep p0 s) = [].
+Proof.
+  intros Hs (Hs' & He & Hd).
+  unfold format_code_outer, format_code_outer_run.
+  destruct (needs_nl St is_empty terminated s); cbv zeta.
+  - unfold format_code_run, pre_gate. rewrite Hs'. simpl. rewrite He. split; [exact Hd|reflexivity].
+  - unfold format_code_run, pre_gate. rewrite Hs. split; reflexivity.
+Qed.
+
+End Outer.
+
 (* ---- lifting the cycle cut to format_code ---- *)
 Section Lifted.
 Variable St : Type.
